@@ -315,7 +315,8 @@ mod pbt {
                 cases: self.cases,
                 failure_persistence: None,
                 rng_seed: RngSeed::Fixed(mix_seed(ctx.seed, &self.name)),
-                max_shrink_iters: 4000,
+                // sub-checks with few cases are the expensive (long-run) ones: bound their shrinking
+                max_shrink_iters: if self.cases <= 64 { 40 } else { 4000 },
                 max_global_rejects: 65536,
                 ..Config::default()
             };
